@@ -134,6 +134,19 @@ def swork(n):
 async def via_thread(n):
     r = await asyncio.to_thread(wrapped_swork, n)
     return r + 1
+
+async def agen(n):
+    for i in range(n):
+        await asyncio.sleep(0)          # the step is suspended inside its window: other tasks run meanwhile
+        j = i + 0
+        yield j
+
+async def consume(n):
+    out = []
+    async for v in wrapped_agen(n):
+        out.append(v)
+        await asyncio.sleep(0)          # the consumer pauses outside every window
+    return out
 '''
 
 
@@ -149,11 +162,14 @@ def aio(sizes, to_thread):
         ns['wrapped_awork'] = p(ns['awork'])
         ns['wrapped_swork'] = p(ns['swork'])
         ns['wrapped_via'] = p(ns['via_thread'])
+        ns['wrapped_agen'] = p(ns['agen'])
         return ns, p
     # oracle: one piece after the other, each in an event loop of its own
     ns, p = fresh()
     for n in sizes:
         asyncio.run(ns['wrapped_awork'](n))
+    for n in sizes:
+        asyncio.run(ns['consume'](n))
     if to_thread:
         asyncio.run(ns['wrapped_via'](to_thread))
     exp = stats_of(p)
@@ -161,7 +177,7 @@ def aio(sizes, to_thread):
     errors = []
 
     async def main():
-        coros = [ns['wrapped_awork'](n) for n in sizes]
+        coros = [c for n in sizes for c in (ns['wrapped_awork'](n), ns['consume'](n))]
         if to_thread:
             coros.append(ns['wrapped_via'](to_thread))
         res = await asyncio.gather(*coros, return_exceptions=True)
